@@ -175,6 +175,31 @@ func W[T any](p *T, name string) *T {
 	return p
 }
 
+// VarR / VarW: accesses to a local variable shared with a closure that may run elsewhere. They are
+// reported to the race monitor like field accesses; in executions run with Options.VarYield they
+// are scheduling points as well (the point lies before the access).
+func VarR[T any](p *T, name string) *T {
+	e := cur
+	if e != nil && !e.aborting {
+		if e.VarYield {
+			Yield("var")
+		}
+		e.access(uintptr(ptrOf(p)), name, false, p)
+	}
+	return p
+}
+
+func VarW[T any](p *T, name string) *T {
+	e := cur
+	if e != nil && !e.aborting {
+		if e.VarYield {
+			Yield("var")
+		}
+		e.access(uintptr(ptrOf(p)), name, true, p)
+	}
+	return p
+}
+
 // MapR records a read of the map object and returns it.
 func MapR[M any](m M, name string) M {
 	e := cur
